@@ -944,7 +944,7 @@ Definition cols_sizes (l : list citem) (d mw fp : Z) (sz : size) (f : bool) : re
       let* ps := cols_plan ws l sz f fp 0 in
       let maxh := match sz with
                   | SBox _ r => r
-                  | _ => match cplan_heights ps with [] => 1 | hs => maxz hs end
+                  | _ => match cplan_heights ps with [] => 1 | hs => Z.max 1 (maxz hs) end   (* max(1, *heights.values()) *)
                   end in
       Ok (cols_finish ws ps maxh)
   end.
@@ -973,7 +973,10 @@ Definition cols_render (l : list citem) (d mw fp : Z) (sz : size) (f : bool) : r
   | _ =>
       let* cv := canvas_join data in
       match sz with
-      | SFlow c | SBox c _ => if cc cv <? c then pad_trim_lr cv 0 (c - cc cv) else Ok cv
+      | SFlow c =>
+          let* cv1 := (if cc cv <? c then pad_trim_lr cv 0 (c - cc cv) else Ok cv) in
+          if cr cv1 <? 1 then pad_trim_tb cv1 0 1 else Ok cv1      (* rows() never reports less than one row *)
+      | SBox c _ => if cc cv <? c then pad_trim_lr cv 0 (c - cc cv) else Ok cv
       | SFixed => Ok cv
       end
   end.
